@@ -5,7 +5,7 @@
    - C05: failure restores the state store (when the template has one);
    - C11: the error list only grows;   C16: the expression counter obeys the budget;
    - the variable / rule / recovery stacks are balanced. *)
-From PV Require Import Lib.Base Lib.Utf8 Syntax.RGrammar Syntax.Code Model.PState Model.Runtime
+From PV Require Import Lib.Base Lib.Utf8 Syntax.RGrammar Syntax.Code Model.PState Spec.Pos Model.Runtime
   Proofs.Utf8Proofs Proofs.ReadProofs.
 From Coq Require Import ZifyBool ZifyN ZifyNat.
 Local Open Scope nat_scope.
@@ -171,8 +171,8 @@ Section Inv.
     maxFailInvert (read c s) = maxFailInvert s /\ memo (read c s) = memo s /\
     st (read c s) = st s /\ gs (read c s) = gs s /\ (exists l, errs (read c s) = errs s ++ l).
   Proof.
-    unfold read. destruct (decode _) as [rn n].
-    destruct (Z.eqb rn RuneError && Nat.eqb n 1); [destruct (o_allowinvalid (cO c))|];
+    unfold read.
+    destruct (Z.eqb _ RuneError && Nat.eqb _ 1); [destruct (o_allowinvalid (cO c))|];
       cbn; repeat split; try reflexivity; try (exists []; rewrite app_nil_r; reflexivity).
     eexists; reflexivity.
   Qed.
